@@ -192,7 +192,7 @@ func genRawValid(g *rand.Rand, tier string) any {
 	}
 	p.Stats = g.IntN(2) == 0
 	p.Close = true
-	p.CloseErr = g.IntN(6)
+	p.CloseErr = g.IntN(NumInjectedErrs)
 	return p
 }
 
@@ -220,7 +220,7 @@ func genRawHostile(g *rand.Rand, tier string) any {
 		p.Seq = append(p.Seq, RawResp{To: g.IntN(3) - 1, Shape: g.IntN(numRShapes)})
 	}
 	p.Stats = g.IntN(2) == 0
-	p.CloseErr = g.IntN(6)
+	p.CloseErr = g.IntN(NumInjectedErrs)
 	return p
 }
 
